@@ -365,9 +365,10 @@ def cmp_chain(case, impl, model):
         if bad:
             return "operation on a sealed token not refused: %s" % ", ".join(sorted(bad))
         return None
-    paths = (impl.get("accept"), impl.get("accept_unverified_then_verify"), impl.get("accept_base64"))
+    paths = (impl.get("accept"), impl.get("accept_unverified_then_verify"), impl.get("accept_base64"),
+             impl.get("accept_deprecated_parse_then_verify", impl.get("accept")))
     if len(set(paths)) != 1:
-        return "entry points disagree on acceptance: from=%s unverified+verify=%s base64=%s" % paths
+        return "entry points disagree on acceptance: from=%s unverified+verify=%s base64=%s deprecated-parse+verify=%s" % paths
     if impl["accept"] != model["accept"]:
         if impl["accept"]:
             return "token accepted although not every signature is one an honest party made over that payload (mutation: %s)" % case.get("mutation")
